@@ -246,12 +246,18 @@ Proof. intros Hr Hq.
   assert (Eraw : cacg_cov_raw RO D N tiny (sp_unit RO D' tiny style_where z') (fun n => omul RO (r' n) (sal n)) q'
                = cacg_cov_raw RO D N tiny (sp_unit RO D' tiny style_where z) (fun n => omul RO (r n) (sal n)) q).
   { apply functional_extensionality; intros d. apply functional_extensionality; intros e. unfold cacg_cov_raw.
-    f_equal.
-    - f_equal. f_equal. f_equal. rewrite !bsum_RO. apply rsum_ext; intros n Hn. rewrite Hr; auto.
-    - apply (scatter_phase_inv N _ _ _ _ (fun n => phasor (c n))).
+    assert (Eden : bsum RO N (fun n => omul RO (r' n) (sal n)) = bsum RO N (fun n => omul RO (r n) (sal n))).
+    { rewrite (bsum_RO N (fun n => omul RO (r' n) (sal n))), (bsum_RO N (fun n => omul RO (r n) (sal n))).
+      apply rsum_ext; intros n Hn. rewrite Hr; auto. }
+    assert (Esc : scatter RO N (sp_unit RO D' tiny style_where z')
+                    (fun n => odiv RO (omul RO (r' n) (sal n)) (cacg_qfloor RO tiny q' n)) d e
+                = scatter RO N (sp_unit RO D' tiny style_where z)
+                    (fun n => odiv RO (omul RO (r n) (sal n)) (cacg_qfloor RO tiny q n)) d e).
+    { apply (scatter_phase_inv N _ _ _ _ (fun n => phasor (c n))).
       + intros n Hn. apply gain_phasor; auto.
       + intros n d0 Hn. apply sp_unit_scale; auto.
       + intros n Hn. unfold odiv, cacg_qfloor. rewrite Hr, Hq; auto. }
+    rewrite Eden, Esc. reflexivity. }
   unfold cacgmm_cov, cacg_cov. fold D. rewrite Eraw. reflexivity. Qed.
 
 Theorem cacgmm_mstep_gain_inv r r' q q' :
